@@ -20,6 +20,13 @@
 (* server (LoseRequest / ServerHandle), the reply is lost or reaches the   *)
 (* client (LoseResponse / ClientReceive), a client that got nothing runs   *)
 (* into its deadline (Timeout).  Time passes between exchanges (Tick).     *)
+(* The network remembers what the server sent (old): while the client      *)
+(* waits in its receive loop it may be handed an earlier authentic reply   *)
+(* of the server - a duplicate, the late reply of an exchange that timed   *)
+(* out, an on-path replay - before or instead of the genuine one (Replay); *)
+(* one that arrives after the call has returned finds no socket (Stray).   *)
+(* The receive loop of measureClockOffsetIP turns down at most MaxRetries  *)
+(* unusable datagrams per call; the next one ends the call.                *)
 (* Probe is an authenticated request of some other NTS client of the same  *)
 (* server carrying an arbitrary number of cookie/placeholder fields.       *)
 (*                                                                         *)
@@ -50,7 +57,8 @@ CONSTANTS
   Horizon,       \* the clock is not advanced beyond this instant (model checking only)
   MaxEx,         \* bound on the number of requests built (model checking only)
   ProbeNs,       \* numbers of cookie/placeholder fields other clients may send
-  ProbeUids      \* lengths of the unique identifiers other clients may send (>= 32)
+  ProbeUids,     \* lengths of the unique identifiers other clients may send (>= 32)
+  MaxOld         \* number of earlier replies the network may still deliver (model checking only)
 
 (***************************************************************************)
 (* Wire sizes (net/nts/nts.go: extension fields are 4-byte aligned)        *)
@@ -103,23 +111,25 @@ VARIABLES
   clean,   \* history: no datagram lost, no request under a retired key, no failure so far
   nex,     \* requests built so far
   nextId,  \* fresh cookie identities
-  obs      \* label of the step just taken
+  obs,     \* label of the step just taken
+  old,     \* replies the server has sent and the network may deliver (again): [cookies, sess, ex]
+  tries    \* numRetries: datagrams the receive loop of the current call has turned down
 
-vars == <<now, prov, pool, sess, used, seen, phase, net, rep, pre, clean, nex, nextId, obs>>
+vars == <<now, prov, pool, sess, used, seen, phase, net, rep, pre, clean, nex, nextId, obs, old, tries>>
 \* cookie identities and the history sets are renamings of each other in
 \* behaviours that agree on the rest
 view == <<now, prov, [i \in DOMAIN pool |-> <<pool[i].key, pool[i].sess>>], sess, phase,
           IF net.k = "req" THEN <<net.cookie.key, net.cookie.sess, net.p, net.bad>> ELSE <<>>,
-          IF rep.k = "none" THEN <<>> ELSE <<rep.k, rep.n, rep.u, Len(rep.cookies), rep.bad>>,
-          pre, clean, nex, obs>>
+          IF rep.k = "none" THEN <<>> ELSE <<rep.k, rep.n, rep.u, Len(rep.cookies), rep.bad, "kv" \in DOMAIN rep /\ rep.kv>>,
+          pre, clean, nex, obs, [i \in DOMAIN old |-> <<old[i].sess, old[i].ex>>], tries>>
 
 \* without a bound on the number of exchanges (MaxEx large) the counters and
 \* the session number are renamings as well; the state space is then finite
 \* because the clock stops at Horizon
 viewU == <<now, prov, [i \in DOMAIN pool |-> <<pool[i].key, pool[i].sess = sess>>], phase,
            IF net.k = "req" THEN <<net.cookie.key, net.cookie.sess = sess, net.p, net.bad>> ELSE <<>>,
-           IF rep.k = "none" THEN <<>> ELSE <<rep.k, rep.n, rep.u, Len(rep.cookies), rep.bad>>,
-           pre, clean, sess > 0, obs>>
+           IF rep.k = "none" THEN <<>> ELSE <<rep.k, rep.n, rep.u, Len(rep.cookies), rep.bad, "kv" \in DOMAIN rep /\ rep.kv>>,
+           pre, clean, sess > 0, obs, [i \in DOMAIN old |-> <<old[i].sess = sess, old[i].ex = nex>>], tries>>
 
 NoMsg == [k |-> "none"]
 Ids(s) == {s[i].id : i \in DOMAIN s}
@@ -140,6 +150,16 @@ CurrentP(pv, t) ==
        IN [keys |-> [i \in kept \cup {pv.cur + 1} |-> IF i = pv.cur + 1 THEN t ELSE pv.keys[i]],
            cur |-> pv.cur + 1, gen |-> t]
   ELSE pv
+
+\* client_ip.go: const maxNumRetries = 1
+MaxRetries == 1
+\* the network's memory: the reply to the current request and the newest MaxOld earlier ones
+Remember(r, x) ==
+  LET o == SelectSeq(old, LAMBDA e : e.ex # x)
+      k == IF Len(o) > MaxOld THEN SubSeq(o, Len(o) - MaxOld + 1, Len(o)) ELSE o
+  IN Append(k, [cookies |-> r.cookies, sess |-> r.sess, ex |-> x])
+\* a reply that answers an earlier request than the one the client is waiting for
+IsStale(i) == i \in DOMAIN old /\ old[i].ex # nex
 
 NewCookies(k, s, m) == [i \in 1 .. m |-> [id |-> nextId + i - 1, key |-> k, sess |-> s]]
 
@@ -178,6 +198,8 @@ Init ==
   /\ nex = 0
   /\ nextId = 1
   /\ obs = "init"
+  /\ old = << >>
+  /\ tries = 0
 
 \* FetchData with an empty pool: NTS-KE, the server's newNTSKEMsg adds 8 cookies
 \* under Current() bound to the freshly exported session keys
@@ -192,7 +214,7 @@ Rekey ==
         /\ seen' = seen \cup Ids(cs)
         /\ nextId' = nextId + 8
   /\ obs' = "rekey"
-  /\ UNCHANGED <<now, used, phase, net, pre, clean, nex>>
+  /\ UNCHANGED <<now, used, phase, net, pre, clean, nex, old, tries>>
 
 \* FetchData (data := f.data; pop), NewRequestPacket, EncodePacket, WriteTo
 SendRequest ==
@@ -216,12 +238,13 @@ SendRequest ==
                            size    |-> Min2(ReqSizeN(n), MaxPacketLen),
                            bad     |-> oc = "trunc"]
   /\ rep' = NoMsg
-  /\ UNCHANGED <<now, prov, sess, seen, nextId>>
+  /\ tries' = 0
+  /\ UNCHANGED <<now, prov, sess, seen, nextId, old>>
 
 LoseRequest ==
   /\ phase = "req"
   /\ phase' = "wait" /\ net' = NoMsg /\ rep' = NoMsg /\ clean' = FALSE /\ obs' = "losereq"
-  /\ UNCHANGED <<now, prov, pool, sess, used, seen, pre, nex, nextId>>
+  /\ UNCHANGED <<now, prov, pool, sess, used, seen, pre, nex, nextId, old, tries>>
 
 \* runIPServer: Decode, provider.Get(cookie key id), Decrypt, ProcessRequest;
 \* then Current() and one new cookie per field
@@ -234,65 +257,103 @@ ServerHandle ==
              /\ rep' = r
              /\ seen' = seen \cup Ids(r.cookies)
              /\ nextId' = nextId + Len(r.cookies)
+             /\ old' = Remember(r, nex)      \* (the network has seen it)
              /\ phase' = "resp" /\ obs' = "serve" /\ UNCHANGED clean
      ELSE /\ phase' = "wait" /\ rep' = NoMsg /\ obs' = "norep" /\ clean' = FALSE
-          /\ UNCHANGED <<prov, seen, nextId>>
+          /\ UNCHANGED <<prov, seen, nextId, old>>
   /\ net' = NoMsg
-  /\ UNCHANGED <<now, pool, sess, used, pre, nex>>
+  /\ UNCHANGED <<now, pool, sess, used, pre, nex, tries>>
 
 LoseResponse ==
   /\ phase = "resp"
   /\ phase' = "wait" /\ rep' = NoMsg /\ clean' = FALSE /\ obs' = "loseresp"
-  /\ UNCHANGED <<now, prov, pool, sess, used, seen, net, pre, nex, nextId>>
+  /\ UNCHANGED <<now, prov, pool, sess, used, seen, net, pre, nex, nextId, old, tries>>
 
 \* ProcessResponse: unique id, authenticate, StoreCookie for every cookie.
 \* A reply that was cut off does not authenticate: the client keeps waiting.
 ClientReceive ==
   /\ phase = "resp"
   /\ IF rep.bad
-     THEN /\ phase' = "wait" /\ obs' = "reject" /\ clean' = FALSE /\ UNCHANGED pool
+     THEN /\ clean' = FALSE /\ UNCHANGED pool
+          /\ IF tries < MaxRetries
+             THEN phase' = "wait" /\ obs' = "reject" /\ tries' = tries + 1
+             ELSE phase' = "idle" /\ obs' = "fail" /\ tries' = 0
      ELSE /\ phase' = "idle" /\ obs' = "store" /\ UNCHANGED clean
           /\ pool' = pool \o rep.cookies
+          /\ tries' = 0
   /\ rep' = NoMsg
-  /\ UNCHANGED <<now, prov, sess, used, seen, net, pre, nex, nextId>>
+  /\ UNCHANGED <<now, prov, sess, used, seen, net, pre, nex, nextId, old>>
+
+\* The network hands the waiting client an earlier reply of the server (old[i]).
+\* ProcessResponse: it answers another request - the unique identifier is not the
+\* one of this request (errUnexpectedResponseID; a reply of an earlier
+\* association does not authenticate either way): nothing is stored.  The
+\* receive loop goes on reading once (numRetries), the next unusable datagram
+\* ends the call with an error; what is still in flight then finds no socket.
+Replay(i) ==
+  /\ phase \in {"resp", "wait"}
+  /\ IsStale(i)
+  /\ IF tries < MaxRetries
+     THEN /\ tries' = tries + 1 /\ obs' = "stale"
+          /\ UNCHANGED <<phase, rep, clean>>
+     ELSE /\ tries' = 0 /\ obs' = "fail" /\ phase' = "idle" /\ rep' = NoMsg /\ clean' = FALSE
+  /\ UNCHANGED <<now, prov, pool, sess, used, seen, net, pre, nex, nextId, old>>
+
+\* ... or delivers it when no call is in progress: the socket of the exchange
+\* it belonged to is closed, the datagram is discarded by the client's host
+Stray(i) ==
+  /\ phase = "idle"
+  /\ i \in DOMAIN old
+  /\ obs' = "stray" /\ rep' = NoMsg
+  /\ UNCHANGED <<now, prov, pool, sess, used, seen, phase, net, pre, clean, nex, nextId, old, tries>>
 
 Timeout ==
   /\ phase = "wait"
-  /\ phase' = "idle" /\ obs' = "fail" /\ rep' = NoMsg
-  /\ UNCHANGED <<now, prov, pool, sess, used, seen, net, pre, clean, nex, nextId>>
+  /\ phase' = "idle" /\ obs' = "fail" /\ rep' = NoMsg /\ tries' = 0
+  /\ UNCHANGED <<now, prov, pool, sess, used, seen, net, pre, clean, nex, nextId, old>>
 
 Tick(d) ==
   /\ phase = "idle" /\ d > 0 /\ now + d <= Horizon
   /\ now' = now + d /\ rep' = NoMsg /\ obs' = "tick"
-  /\ UNCHANGED <<prov, pool, sess, used, seen, phase, net, pre, clean, nex, nextId>>
+  /\ UNCHANGED <<prov, pool, sess, used, seen, phase, net, pre, clean, nex, nextId, old, tries>>
 
 \* (The authenticated branch exists twice, in server_ip.go and in server_scion.go;
 \* Probe stands for a request to either listener - the recorded probes name the
 \* listener and are judged alike.)
 \* another client of the same server (session 0) sends an authenticated request
-\* with n cookie/placeholder fields, a unique identifier of u bytes and a cookie
-\* under the current key
-Probe(n, u) ==
+\* with n cookie/placeholder fields and a unique identifier of u bytes.  Its
+\* cookie is sealed under key k: one of the keys the provider still holds (the
+\* association is as old as that key: it got the cookie while k was the key
+\* handed out by Current() and has lived across the rotations since), or, k = 0,
+\* under the key Current() hands out now (it has just run a key exchange).
+\* DecodePacket (unique identifier), provider.Get(k), then as ServerHandle.
+Probe(n, u, k) ==
   /\ phase = "idle" /\ nex < MaxEx
-  /\ LET pv == CurrentP(prov, now)    \* (the requester got its cookie from Current())
+  /\ k = 0 \/ k \in DOMAIN prov.keys
+  /\ LET pk == IF k = 0 THEN CurrentP(prov, now) ELSE prov
+         ck == IF k = 0 THEN pk.cur ELSE k
+         kv == ValidAt(pk, ck, now)
+         pv == CurrentP(pk, now)
          r  == ReplyFor("probe", n, 0, pv, u)
-     IN /\ prov' = pv
-        /\ IF UidAccepted(u)
-           THEN /\ rep' = r
-                /\ seen' = seen \cup Ids(r.cookies)
-                /\ nextId' = nextId + Len(r.cookies)
-           ELSE /\ rep' = [k |-> "dropped", n |-> n, u |-> u, cookies |-> << >>, sess |-> 0,
-                           size |-> 0, bad |-> FALSE]
-                /\ UNCHANGED <<seen, nextId>>
+     IN IF UidAccepted(u) /\ kv
+        THEN /\ prov' = pv
+             /\ rep' = r @@ [ck |-> ck, kv |-> kv]
+             /\ seen' = seen \cup Ids(r.cookies)
+             /\ nextId' = nextId + Len(r.cookies)
+        ELSE /\ prov' = pk
+             /\ rep' = [k |-> "dropped", n |-> n, u |-> u, cookies |-> << >>, sess |-> 0,
+                        size |-> 0, bad |-> FALSE, ck |-> ck, kv |-> kv]
+             /\ UNCHANGED <<seen, nextId>>
   /\ nex' = nex + 1
   /\ obs' = "probe"
-  /\ UNCHANGED <<now, pool, sess, used, phase, net, pre, clean>>
+  /\ UNCHANGED <<now, pool, sess, used, phase, net, pre, clean, old, tries>>
 
 Next ==
   \/ Rekey \/ SendRequest \/ LoseRequest \/ ServerHandle \/ LoseResponse
   \/ ClientReceive \/ Timeout
+  \/ \E i \in DOMAIN old : Replay(i) \/ Stray(i)
   \/ \E d \in Ticks : Tick(d)
-  \/ \E n \in ProbeNs, u \in ProbeUids : Probe(n, u)
+  \/ \E n \in ProbeNs, u \in ProbeUids, k \in {0} \cup DOMAIN prov.keys : Probe(n, u, k)
 
 Spec == Init /\ [][Next]_vars
 
@@ -340,10 +401,12 @@ RespCount == (IsReply /\ ~rep.bad) =>
 AnsweredStep == (obs' = "norep" /\ ~net.bad) => ~KeyValid(net.cookie.key)
 Answered == [][AnsweredStep]_vars
 \* ... whatever the length of its unique identifier, up to the bound the server
-\* states for the identifiers it is able to echo
-ProbeAnswered == rep.k = "dropped" => ~UidAccepted(rep.u)
+\* states for the identifiers it is able to echo (authenticated: its cookie
+\* names a key the provider still hands out)
+ProbeAnswered == rep.k = "dropped" => (~UidAccepted(rep.u) \/ ~rep.kv)
 \* fresh: never issued before, pairwise different
-FreshStep == rep'.k # "none" =>
+Issues == obs' \in {"rekey", "serve", "probe"}    \* (the steps in which the server issues cookies)
+FreshStep == (Issues /\ rep'.k # "none") =>
    /\ \A i \in DOMAIN rep'.cookies : rep'.cookies[i].id \notin seen
    /\ \A i, j \in DOMAIN rep'.cookies : i # j => rep'.cookies[i].id # rep'.cookies[j].id
 Fresh == [][FreshStep]_vars
